@@ -50,8 +50,8 @@ MidBase ==
 MidGenConfs == {IF c.mirror THEN c ELSE WithPorts(c) : c \in MidBase}
   \cup {WithCred(Conf(op, TRUE, "up", TRUE, FALSE, "E", "https"), "M", k) : op \in {"mget", "bget"}, k \in {"tok", "uptok", "none"}}
   \cup {WithCred(Conf("copy", TRUE, "up", FALSE, FALSE, "E", "https"), "B", k) : k \in {"tok", "uptok", "none"}}
-  \cup {Conf("mount", TRUE, c, m, ra, "E", "https") : c \in {"tok", "uptok"}, m \in Bools, ra \in Bools}
-  \cup {Conf("mount", TRUE, "up", FALSE, FALSE, "E", "https")}
+  \cup {Conf("mount", TRUE, "tok", FALSE, TRUE, "E", "https"), Conf("mount", TRUE, "uptok", TRUE, FALSE, "E", "https"),
+        Conf("mount", TRUE, "up", FALSE, FALSE, "E", "https")}
 OtherCreds == {WithCred(c, "M", k) : c \in {x \in AllConfs : x.mirror}, k \in {"tok", "uptok", "none"}}
               \cup {WithCred(c, "B", k) : c \in {x \in AllConfs : x.op \in {"copy", "copyext"}}, k \in {"tok", "uptok", "none"}}
 SimConfs == AllConfs \cup {WithPorts(c) : c \in AllConfs} \cup OtherCreds
